@@ -99,6 +99,8 @@ def run(ctx):
             gram["tables"] += 1
             grepc[g] = "yes" if kv.get("repconflict", "0") != "0" else "no"
             gram["states"].append(int(kv["states"]))
+            if kv.get("rootsafe") == "true":
+                gram["rootSafe"] = gram.get("rootSafe", 0) + 1
             if kv["closed"] == "true":
                 gram["closed"] += 1
             else:
@@ -168,7 +170,7 @@ def run(ctx):
                 "strings: every token string up to the per-grammar bound L over the grammar's terminals, random derivations (6..1000 tokens) and 2 token-level mutations each, "
                 "grammar-directed documents for zoo grammars; non-trivial := error-free and the real tree uses >= 3 distinct productions; distinct by hash of (grammar source, string)",
         "samples": samples,
-        "grammars": {"tables": gram["tables"], "tableClosed": gram["closed"], "with_oracle": gram["oracle"],
+        "grammars": {"tables": gram["tables"], "tableClosed": gram["closed"], "rootSafe(premise of driver_sound; fails only with non-terminal extras)": gram.get("rootSafe", 0), "with_oracle": gram["oracle"],
                      "oracle_fixpoint": gram["oracle_fixpoint"],
                      "states_min_med_max": [st[0], st[len(st) // 2], st[-1]] if st else [],
                      "language_sizes_up_to_L": sorted(gram["lang_sizes"])[-8:], "generator": stats},
